@@ -611,6 +611,9 @@ func (v Value) opLte(b Value) Value {
 func (v Value) opNeq(b Value) Value { return Bool(!v.Equals(b)) }
 
 func (v Value) Equals(b Value) bool {
+	if v.t == TypeNil && b.t != TypeNil {
+		return b.Equals(v) // nil == x is x == nil
+	}
 	switch {
 	case b.t == TypeNil && v.t != TypeNil && v.t < nillableMin:
 		return false // a bool, number or string (held in an any) is never nil
